@@ -70,6 +70,7 @@ class Acc:
         self.cut = False
         self.preempt_hist = {}
         self.samples = []
+        self.determinism_checks = 0
 
     def merge(self, o):
         self.runs += o.runs
@@ -85,6 +86,7 @@ class Acc:
         for k, v in o.preempt_hist.items():
             self.preempt_hist[k] = self.preempt_hist.get(k, 0) + v
         self.samples = (self.samples + o.samples)[:6]
+        self.determinism_checks += o.determinism_checks
 
 
 def _flush(scn, batch, acc):
@@ -151,6 +153,12 @@ def explore(task):
         if expand:
             stack.extend(reversed(children(devs, obs.trace, bound)))
         acc.runs += 1
+        if acc.runs % 250 == 1:
+            # determinism of replay: the same deviation map must reproduce the same execution
+            o2 = run(scn, devs)
+            if (o2.labels, o2.marks, o2.trace, o2.sends) != (obs.labels, obs.marks, obs.trace, obs.sends):
+                acc.map_fail.append((devs_str(devs), "replay is not deterministic: two runs of one schedule differ", obs.labels))
+            acc.determinism_checks += 1
         acc.max_decisions = max(acc.max_decisions, obs.decisions)
         ds = devs_str(devs)
         used = sum(obs.trace[k][1] for k in devs if 0 <= k < len(obs.trace))
